@@ -59,9 +59,12 @@ def _fold_accumulate(f, mode):
     from ..fold import Folder, Obj, Opaque, Raised, Refuse
     from ..terms import nf
 
-    def ctor(affine):
+    log = {"cls": [], "fit": []}
+
+    def ctor(affine, cname=None):
         def make(a, k):
-            fields = {"balance_scaling": Opaque("m", "A_new"), "find_balance": lambda a2, k2: None}
+            log["cls"].append(cname)
+            fields = {"balance_scaling": Opaque("m", "A_new"), "find_balance": lambda a2, k2: log["fit"].append([nf(x) for x in a2])}
             if affine:
                 fields["balance_translation"] = Opaque("v", "b_new")
             return Obj("stage", fields)
@@ -69,7 +72,7 @@ def _fold_accumulate(f, mode):
     fo = Folder(symbolic=True)
     fo.func_stack.append(f.node)
     fo.fold_all_methods = True
-    fo.overrides = {"WhiteBalance": ctor(False), "ColorBalance": ctor(False), "AffineBalance": ctor(True)}
+    fo.overrides = {"WhiteBalance": ctor(False, "WhiteBalance"), "ColorBalance": ctor(False, "ColorBalance"), "AffineBalance": ctor(True, "AffineBalance")}
     so = Obj("self", {"__class__": "AdaptiveBalance", "balance_scaling": Opaque("m", "A_prev"), "balance_translation": Opaque("v", "b_prev")})
     try:
         fo.call(f.node, [so, Opaque("arr", "SRC"), Opaque("arr", "DST"), mode])
@@ -82,13 +85,15 @@ def _fold_accumulate(f, mode):
             return t
         if isinstance(n, ast.Call) and norm(n.func) in ("np.zeros", "np.zeros_like"):
             return NC.const(0)
+        if isinstance(n, (ast.List, ast.Tuple)) and n.elts and all(isinstance(e, ast.Constant) and e.value == 0 for e in n.elts):
+            return NC.const(0)  # a folded zero vector
         return None
     try:
         A = ToNC(symbolize=symbolize)(ast.parse(nf(so.fields["balance_scaling"]), mode="eval").body)
         b = ToNC(symbolize=symbolize)(ast.parse(nf(so.fields["balance_translation"]), mode="eval").body)
     except Exception:
         return None
-    return A, b
+    return A, b, log
 
 
 def rule_a(ctx):
@@ -122,7 +127,7 @@ def rule_a(ctx):
             Ap, bp, An, bn = NC.sym("A_prev"), NC.sym("b_prev"), NC.sym("A_new"), NC.sym("b_new")
             want_A = Ap @ An if side == "left" else An @ Ap
             want_b_lin = bp @ An if side == "left" else An @ bp
-            for mode, (A, b) in sem.items():
+            for mode, (A, b, _log) in sem.items():
                 ctx.ob(R, f.qname, f"{mode} stage: accumulated scaling is {'A_prev @ A_new' if side == 'left' else 'A_new @ A_prev'}", A == want_A,
                        f"normal form {A!r}; apply_balance uses the image as the {side} operand, so applying the stages one after the other gives {want_A!r}", f.node, evidence=True)
                 wb = want_b_lin + bn if mode == "affine" else want_b_lin
@@ -281,7 +286,15 @@ def rule_c(ctx):
     pre = [norm(s.targets[0]) for s in f.node.body if isinstance(s, ast.Assign) and norm(s.value) == f"self.apply_balance({f.params[1]})"]
     calls = [c for c in ast.walk(f.node) if isinstance(c, ast.Call) and norm(c.func).endswith(".find_balance") and not norm(c.func).startswith("self.")]
     ok = len(pre) == 1 and len(calls) == 1 and [norm(a) for a in calls[0].args] == [pre[0], f.params[2]]
-    ctx.ob(R, f.qname, "stage.find_balance(apply_balance(swatches_src), swatches_dst)", ok, f"{pre} {[norm(c) for c in calls]}", f.node)
+    sem = {mode: _fold_accumulate(f, mode) for mode in ("diagonal", "linear", "affine")} if not ok else {}
+    folded = bool(sem) and all(v is not None for v in sem.values())
+    if folded:
+        # decided on the folded method: what the stage is fitted on, per mode (the previous balance applied to the source swatches, row-vector form)
+        fits = {mode: v[2]["fit"] for mode, v in sem.items()}
+        want = [["((SRC @ A_prev) + b_prev)", "DST"]]
+        ctx.ob(R, f.qname, "stage.find_balance(apply_balance(swatches_src), swatches_dst)", all(ft == want for ft in fits.values()), str(fits), f.node, evidence=True)
+    else:
+        ctx.ob(R, f.qname, "stage.find_balance(apply_balance(swatches_src), swatches_dst)", ok, f"{pre} {[norm(c) for c in calls]}", f.node)
     ann = f.node.args.args[3].annotation
     documented = sorted(x.value for x in ast.walk(ann) if isinstance(x, ast.Constant) and isinstance(x.value, str)) if ann is not None else []
     handled = {}
@@ -296,6 +309,10 @@ def rule_c(ctx):
                     cur = cur.orelse[0]
                     continue
                 break
+    if not handled:
+        sem = {mode: _fold_accumulate(f, mode) for mode in documented}
+        if sem and all(v is not None for v in sem.values()):
+            handled = {mode: (v[2]["cls"][0] if len(v[2]["cls"]) == 1 else None) for mode, v in sem.items()}
     ctx.ob(R, f.qname, "every documented mode selects its balance class", handled == {"diagonal": "WhiteBalance", "linear": "ColorBalance", "affine": "AffineBalance"} and sorted(handled) == documented,
            f"documented {documented}, handled {handled}", f.node)
     ctx.floor(R, 1)
